@@ -74,9 +74,7 @@ def judgeRx (mode : Nat) (kv : KV) : Verdict :=
       match rstrFind r line n flg nd ng with
       | none => (b2s fast, "trap", "trap")
       | some (s, g, _) =>
-        -- on the fast path only the first pair is written; the harness pre-fills with -7
-        let g' := if fast && s ≥ 0 then g ++ List.replicate (2 * n - g.length) (-7) else g
-        (b2s fast, toString s, if s ≥ 0 then showGrps g' else "-")
+        (b2s fast, toString s, if s ≥ 0 then showGrps g else "-")
   let d := cmp "comp" (kv.get "comp") mComp ++ implAllocCmp ++ cmp "pn" (kv.get "pn") mN ++ cmp "prog" (kv.get "prog") mProg
     ++ cmp "set" (kv.get "set") mSet ++ cmp "grps" (kv.get "grps") mGrps ++ cmp "cuts" (kv.get "cuts") mCuts
     ++ cmp "fast" (kv.get "fast") mFast ++ cmp "rstr" (kv.get "rstr") mRstr ++ cmp "rgrps" (kv.get "rgrps") mRgrps
@@ -145,10 +143,10 @@ def judgeRx (mode : Nat) (kv : KV) : Verdict :=
     r3.reverse
   let sf12 :=
     (if iFast && stripped.any (fun c => Gen.ratomSpecial.contains c) then [s!"clause=simple_has_no_operator literal={bytesHex stripped}"] else [])
-    ++ (if iFast && iSet != "null" && iCuts == 0 then
+    ++ (if iFast && iSet != "null" && iCuts == 0 && line.getLast? == some 10 then
           (let eFound : Bool := intOf iSet ≥ 0
            let fFound : Bool := iRstr != "null" && intOf iRstr ≥ 0
-           if eFound != fFound then [s!"clause=fast_equals_engine engine_found={eFound} fast_found={fFound}"]
+           if eFound != fFound then [s!"clause=fast_equals_engine engine_found={eFound} fast_found={fFound} engine_at_eos={decide (eFound && iGrps.getD 0 (-1) == len)}"]
            else if eFound && (iGrps.take 2 != iRgrps.take 2) then [s!"clause=fast_equals_engine engine={showGrps (iGrps.take 2)} fast={showGrps (iRgrps.take 2)}"]
            else [])
         else [])
